@@ -148,6 +148,8 @@ def run(prog, rep):
     check_lookahead_fresh(prog, rep)
     check_scanner_reads(prog, rep, 'R9.9')
     check_writer_separators(prog, rep, 'R9.11')
+    from rules import csv_header
+    csv_header.check(prog, rep, 'R9.12')
 
     # ---------------------------------------------------------------- R9.3
     for cls in ('CCsvStringReader', 'CCsvStreamReader'):
